@@ -2,7 +2,7 @@
     Property theorems only; each is closed by [exact] of a lemma proved in Proofs/.
     Model/ParMap.v transcribes rust/src/parallel_map.rs (the source text is pinned); a schedule
     is any list of choices among the consumer's [next()] and the worker threads. *)
-Require Import Sedpack.Model.Base Sedpack.Model.ParMap Sedpack.Proofs.ParMapProofs.
+Require Import Sedpack.Model.Base Sedpack.Model.ParMap Sedpack.Proofs.ParMapProofs Sedpack.Proofs.ParMapTerm.
 
 (** For every source length n, thread count T >= 1, failure set and schedule: the results
     returned so far are exactly those of tasks 0, 1, ..., k-1 in source order; a pass that ends
@@ -29,6 +29,20 @@ Theorem c15_parmap_failure_not_swallowed :
     preach n bad T s -> i < n -> bad i = true -> cons s = CDone -> False.
 Proof. exact parmap_failure_lemma. Qed.
 Print Assumptions c15_parmap_failure_not_swallowed.
+
+(** Termination: under every schedule of the consumer and the worker threads a whole pass takes at most 3n + min(T,n) + 1
+    thread steps (with [c15_parmap_no_deadlock]: every pass ends, normally or by a panic, within that many steps). *)
+Theorem c15_parmap_terminates :
+  forall (n : nat) (bad : nat -> bool) (T k : nat) (s' : pstate), steps n bad (pinit n T) k s' -> k <= 3 * n + Nat.min T n + 1.
+Proof. exact pass_terminates. Qed.
+Print Assumptions c15_parmap_terminates.
+
+(** Early drop: dropping the iterator in any state whatsoever (every thread is sent [None], then joined) lets every thread
+    end its body after finitely many of its own steps, so [join] returns: abandoning a pass cannot hang. *)
+Theorem c15_drop_is_live :
+  forall (bad : nat -> bool) (s : pstate) (w : worker), List.In w (ring (pdrop s)) -> gone (wrun bad (worker_w w) w) = true.
+Proof. exact drop_is_live. Qed.
+Print Assumptions c15_drop_is_live.
 
 Theorem c15_nonvacuous :
   let sched := concat (repeat [1; 2; 3; 0; 3; 2; 1; 0] 30) in
